@@ -6,7 +6,7 @@ import random as _random
 from hypothesis import strategies as st
 
 from .. import molgen
-from ..core import hyp_run, HarnessError
+from ..core import hyp_run, direct_run, HarnessError
 from ..oracles import wl
 
 ID = 'C20'
@@ -16,7 +16,9 @@ RULE = ('molecules both toolkits accept (corpus, curated, literals, constructive
         'to_rdkit_molecule(m) must be chirality-aware isomorphic to RDKit\'s own reading of the molecule\'s SMILES and carry '
         'element/isotope/charge/radical/H/map/coordinates per atom; from_rdkit_molecule() of it and of RDKit-parsed corpus '
         'molecules (also with explicit H added by RDKit) must equal the chython molecule atom-wise and by canonical string; both '
-        'round trips are identities. non-trivial = stereo label, charge, isotope or aromatic ring; distinct by canonical string')
+        'round trips are identities. non-trivial = stereo label, charge, isotope or aromatic ring; distinct by canonical string'
+        '; also: source-text clause: configuration RDKit reads from the text equals the one returned through the bridge.'
+        '; also: the curated witness list is swept completely on every run.')
 ASSUMPTIONS = ['RDKit canonical SMILES / chirality-aware substructure match in both directions is the judge on the RDKit side, '
                'chython canonical SMILES after kekule()+thiele() on the chython side',
                'chython supports tetrahedral stereo on carbon only and RDKit no allene/cumulene stereo: those labels are not compared',
@@ -26,7 +28,7 @@ ASSUMPTIONS = ['RDKit canonical SMILES / chirality-aware substructure match in b
 
 def shards(tier, seed):
     n = 450 if tier == 'quick' else 6000
-    return [dict(shard=i, n=n) for i in range(12)]
+    return [dict(shard=i, n=n) for i in range(12)] + [dict(shard='curated')]
 
 
 def run_shard(shard, tier, seed):
@@ -34,6 +36,10 @@ def run_shard(shard, tier, seed):
         import rdkit  # noqa
     except ImportError:
         raise HarnessError('RDKit is not importable: C20 cannot be decided')
+    if shard['shard'] == 'curated':
+        # the curated witnesses are swept completely on every run (drawn cases meet a given witness only now and then)
+        return direct_run(ID, [{'mol': {'k': 'smi', 's': s}, 'seed': seed * 7919 + i, 'form': ['thiele', 'kekule'][i % 2], 'mapping': bool(i % 3),
+                                'rdkit_first': bool(i % 5 % 2)} for i, s in enumerate(molgen.curated())], check_case)
     strat = st.fixed_dictionaries({'mol': molgen.mol_specs(max_atoms=14, corpus_w=6, curated_w=3, graph_w=4, literal_w=1, sym_w=2),
                                    'seed': st.integers(0, 2 ** 31), 'form': st.sampled_from(['thiele', 'thiele', 'kekule']),
                                    'mapping': st.booleans(), 'rdkit_first': st.booleans()})
